@@ -145,7 +145,7 @@ func (fr *Frame) exec(ins ssa.Instruction, st *State, rch Term) {
 	case *ssa.MakeSlice:
 		ln := fr.value(x.Len).t()
 		cp := fr.value(x.Cap).t()
-		fr.safety("make-size", x, rch, and(sx("<=", "0", ln), sx("<=", ln, cp), sx("<=", cp, maxLenT)))
+		fr.safety("make-size", x, rch, and(sx("<=", "0", ln), sx("<=", ln, cp), sx("<=", cp, "4611686018428436480")))
 		elem := x.Type().Underlying().(*types.Slice).Elem()
 		arr := fr.allocArray(elem, cp, st, true)
 		fr.vals[x] = Val{T: x.Type(), C: []Term{arr, ln, cp}}
